@@ -34,14 +34,17 @@ var (
 	pool     []*PoolKey
 )
 
-const poolSize = 10
+const poolSize = 19
 
 // Pool layout (see tools/genkeys): 0,1 plain RSA-2048; 2 RSA-3072 with a
 // high-bit serial; 3 RSA-4096 with leading-zero serial; 4 shares issuer AND
 // serial with 0; 5 shares the serial of 1 under another issuer; 6 shares the
 // issuer of 1 with another serial; 7 has a longer certificate; 8 and 9 are leaf
 // certificates issued by a separate CA (issuer != subject), same issuer,
-// different serials.
+// different serials; 10..17 are further leaves of that CA over k8's key whose
+// certificate lengths are consecutive (796..803 bytes), so that signature blobs
+// of every length modulo 8 occur; 18 carries a 70000-byte extension (SignedData
+// beyond 65535 bytes).
 func Pool() []*PoolKey {
 	poolOnce.Do(func() {
 		dir := filepath.Join(verifRoot(), "fixtures", "keys")
